@@ -30,7 +30,7 @@ FAULT_KINDS = ["entropy_zero", "entropy_ones", "entropy_multiple_of_n", "entropy
                "prod_blinding_overwritten"]
 PROBES = ["verify_reached_infinity", "add_P_plus_minusP", "add_P_plus_P", "add_with_infinity", "mul_k_multiple_of_n",
           "mul_negative_k", "mul_k_ge_n", "sign_first_nonce_rejected", "r_ge_n_rejected", "s_ge_n_rejected",
-          "malleated_s_accepted", "recover_signer_found", "nonce_x_ge_n", "lift_no_point", "ecdh", "keysign", "keyverify_forged_der", "sign_with_callers_nonce_source", "add_operand_representation",
+          "malleated_s_accepted", "recover_signer_found", "nonce_x_ge_n", "lift_no_point", "ecdh", "keysign", "keyverify_forged_der", "sign_with_callers_nonce_source", "add_operand_representation", "verify_same_signature_against_keys_in_turn",
           "replicas>=3", "pure_replica_on_256bit", "openssl_replica", "libsecp256k1_replica"]
 
 NIDS = {"secp256k1": 714, "secp256r1": 415}
@@ -267,7 +267,16 @@ def gen_plan(rng, tier, index, config=None):
                 rr, s2 = r.between(0, n + 2), r.between(0, n + 2)
             elif how == "r_is_x_mod" and R is not None:
                 rr = R[0]  # unreduced x (differs from r only when x >= n)
-            steps.append({"op": "verify", "Q": enc(Q2), "z": z2, "r": rr, "s": s2, "how": how})
+            st_ = {"op": "verify", "Q": enc(Q2), "z": z2, "r": rr, "s": s2, "how": how}
+            if r.chance(0.35):
+                # the way CHECKMULTISIG works: the same signature is tried against several keys, in some order, the right
+                # one possibly more than once; and a genuine signature may have gone through just before a forged twin
+                other = enc(C.mul(r.between(1, n - 1), C.G))
+                st_["keys_in_turn"] = r.pick([["other", "Q"], ["Q", "other", "Q"], ["other", "other", "Q"], ["Q", "Q"]])
+                st_["other"] = other
+                if how not in ("valid",) and r.chance(0.5):
+                    st_["genuine_first"] = {"Q": enc(Q), "z": z, "r": sr, "s": ss}
+            steps.append(st_)
         elif op == "reblind":
             rep = r.pick(replicas)
             nxt = _scalar(r, n, wide=big)
@@ -639,7 +648,25 @@ def _op_verify(ctx, C, reps, st, hist_r, cfg):
         v = g.verify(Q, z, (r, s))
         return v if isinstance(v, bool) else ("non-bool", repr(v))
 
+    if st.get("genuine_first"):
+        g0 = st["genuine_first"]
+        Q0 = _m(g0["Q"])
+        _each(ctx, reps, "C01", "verify", lambda g: bool(g.verify(Q0, g0["z"], (g0["r"], g0["s"]))), C.verify(Q0, g0["z"], g0["r"], g0["s"]))
     res = _each(ctx, reps, "C01", "verify", f, exp)
+    if st.get("keys_in_turn"):
+        ctx.probe("verify_same_signature_against_keys_in_turn")
+        other = _m(st["other"])
+        seq = [Q if k == "Q" else other for k in st["keys_in_turn"]]
+        exps = [C.verify(K_, z, r, s) for K_ in seq]
+
+        def turn(g):
+            out = []
+            for K_ in seq:
+                v = g.verify(K_, z, (r, s))
+                out.append(v if isinstance(v, bool) else ("non-bool", repr(v)))
+            return out
+
+        _each(ctx, reps, "C01", "verify", turn, exps)
     return res
 
 
